@@ -531,18 +531,17 @@ func compare(c Case, got logEntry, w want) string {
 	} else if !numEq(got.Val, w.Val) {
 		return "value"
 	}
-	if w.Extra == nil {
-		if got.Extra != nil {
-			return "extra"
-		}
-	} else if !numEq(got.Extra, *w.Extra) {
+	if w.Extra != nil && !numEq(got.Extra, *w.Extra) {
 		return "extra"
 	}
-	if got.Op != w.Op {
-		return "op"
-	}
-	if strings.TrimRight(got.Detail, " ") != w.Detail {
-		return "detail"
+	// operator and expression text are part of the report only for modifications
+	if w.T == "mod" {
+		if got.Op != w.Op {
+			return "op"
+		}
+		if strings.TrimRight(got.Detail, " ") != w.Detail {
+			return "detail"
+		}
 	}
 	return ""
 }
@@ -995,25 +994,48 @@ type nameT struct {
 	q bool
 }
 
-func enumAlphabet(thoroughTriples bool) (assign []Edit, mods []Edit) {
-	names := []nameT{{"力量", false}, {"hp", false}, {"dex", false}, {"射击:弓箭", false}, {"力量 12", true}, {"a:b", true}}
-	vals := []Expr{intE(60), {Atoms: []Atom{{K: "float", F: "2.5"}}}, {Atoms: []Atom{{K: "dice", I: 3, M: 1}}}, parenE()}
+// enumAlphabet: level 0 = quick pairs, 1 = thorough pairs, 2 = thorough triples.
+func enumAlphabet(level int) (assign []Edit, mods []Edit) {
+	fl := Expr{Atoms: []Atom{{K: "float", F: "2.5"}}}
+	dc := Expr{Atoms: []Atom{{K: "dice", I: 3, M: 1}}}
 	negv := Expr{Neg: true, Atoms: []Atom{{K: "int", I: 5}}}
 	dval := Expr{Atoms: []Atom{{K: "d", M: 1}}}
-	joins := [][3]string{{"", ":", ""}, {"", "=", ""}, {" ", ":", " "}, {"", "=", " "}}
-	if thoroughTriples {
+	tail := Expr{Atoms: []Atom{{K: "dice", I: 3, M: 1}, {K: "int", I: 1}}, Ops: []string{"-"}}
+	var names []nameT
+	var vals, mvals []Expr
+	var joins [][3]string
+	blanks := [][2]string{{"", ""}, {" ", " "}}
+	extras := true // -5 / d1 values, float and parenthesised multipliers
+	switch level {
+	case 0:
+		names = []nameT{{"力量", false}, {"dex", false}, {"射击:弓箭", false}, {"力量 12", true}}
+		vals = []Expr{intE(60), fl, dc, parenE()}
+		mvals = []Expr{intE(60), fl, parenE(), tail}
+		joins = [][3]string{{"", ":", ""}, {"", "=", ""}, {" ", ":", " "}}
+	case 1:
+		names = []nameT{{"力量", false}, {"hp", false}, {"dex", false}, {"射击:弓箭", false}, {"力量 12", true}, {"a:b", true}}
+		vals = []Expr{intE(60), fl, dc, parenE()}
+		mvals = []Expr{intE(60), fl, dc, parenE(), tail}
+		joins = [][3]string{{"", ":", ""}, {"", "=", ""}, {" ", ":", " "}, {"", "=", " "}}
+	default:
 		names = []nameT{{"力量", false}, {"dex", false}, {"射击:弓箭", false}, {"力 1", true}}
-		vals = []Expr{intE(60), {Atoms: []Atom{{K: "dice", I: 3, M: 1}}}, parenE()}
+		vals = []Expr{intE(60), dc, parenE()}
+		mvals = []Expr{intE(60), parenE(), tail}
 		joins = [][3]string{{"", ":", ""}, {" ", "=", " "}}
+		blanks = blanks[:1]
+		extras = false
 	}
+	k2 := Atom{K: "int", I: 2}
+	kf := Atom{K: "float", F: "2.5"}
+	kp := parenE().Atoms[0]
 	for _, nm := range names {
 		ns := !nm.q && strings.Contains(nm.n, ":")
 		for _, v := range vals {
 			assign = append(assign, Edit{T: "set", Name: nm.n, Quoted: nm.q, V: v})
 		}
-		for _, j := range joins {
+		for ji, j := range joins {
 			vs := append([]Expr{}, vals...)
-			if !thoroughTriples {
+			if extras {
 				vs = append(vs, negv)
 				if j[1] == "=" || j[2] != "" {
 					vs = append(vs, dval)
@@ -1022,18 +1044,13 @@ func enumAlphabet(thoroughTriples bool) (assign []Edit, mods []Edit) {
 			for _, v := range vs {
 				assign = append(assign, Edit{T: "set", Name: nm.n, Quoted: nm.q, Pre: j[0], J: j[1], Post: j[2], V: v})
 			}
-		}
-		k2 := Atom{K: "int", I: 2}
-		kf := Atom{K: "float", F: "2.5"}
-		kp := parenE().Atoms[0]
-		for ji, j := range joins {
-			if thoroughTriples && ji > 0 {
-				break
+			if !extras && ji > 0 {
+				continue
 			}
 			if !ns {
 				assign = append(assign, Edit{T: "x0", Name: nm.n, Quoted: nm.q, Pre: j[0], J: j[1], Post: j[2], V: vals[0]})
 				assign = append(assign, Edit{T: "x1", Name: nm.n, Quoted: nm.q, K: &k2, Pre: j[0], J: j[1], Post: j[2], V: vals[0]})
-				if !thoroughTriples {
+				if extras {
 					assign = append(assign, Edit{T: "x1", Name: nm.n, Quoted: nm.q, K: &kf, StarPre: " ", StarPos: " ", Pre: j[0], J: j[1], Post: j[2], V: vals[len(vals)-1]})
 					assign = append(assign, Edit{T: "x1", Name: nm.n, Quoted: nm.q, K: &kp, Pre: j[0], J: j[1], Post: j[2], V: vals[1]})
 				}
@@ -1042,15 +1059,9 @@ func enumAlphabet(thoroughTriples bool) (assign []Edit, mods []Edit) {
 			assign = append(assign, Edit{T: "comp", Name: nm.n, Quoted: nm.q, Pre: j[0], J: j[1], Post: j[2], V: vals[len(vals)-1]})
 		}
 	}
-	tail := Expr{Atoms: []Atom{{K: "dice", I: 3, M: 1}, {K: "int", I: 1}}, Ops: []string{"-"}}
-	mvals := append(append([]Expr{}, vals...), tail)
-	blanks := [][2]string{{"", ""}, {" ", " "}}
 	for _, nm := range names {
 		for _, op := range []string{"+", "+=", "-", "-="} {
-			for bi, b := range blanks {
-				if thoroughTriples && bi > 0 {
-					break
-				}
+			for _, b := range blanks {
 				for _, v := range mvals {
 					mods = append(mods, Edit{T: "mod", Name: nm.n, Quoted: nm.q, Pre: b[0], J: op, Post: b[1], V: v})
 				}
@@ -1098,7 +1109,7 @@ func enumerate(s *rt.Section, run *rt.Run, alpha []Edit, length int, seps []stri
 					if nonTrivial(c) {
 						s.NonTrivial(hashCase(c))
 					}
-					if total%4001 == 1 {
+					if total%997 == 1 {
 						s.Sample(hashCase(c), c.Source())
 						classify(c, s)
 					}
@@ -1163,7 +1174,7 @@ func TestProp(t *testing.T) {
 
 	listRule := "structured lists of 1..8 edits, all assignments (name+value juxtaposed, name:value, name=value with optional blanks, name*:v, name*k:v, &name=expr) or all modifications (+ += - -=, optional blanks), names plain (CJK/ASCII/other letters), namespaced a:b or quoted with digits/blanks/colons, values ints, floats, NdM dice (one-sided, or any sides under DiceMinMode/DiceMaxMode), parenthesised + - * expressions, bare arithmetic tails in modifications, separators '' ' ' ',' and blanks round the comma, optional trailing blank; printed as ^st..., CallbackSt log compared element by element with the structure (type, verbatim name, reference value with '-' sign rule, extra, op, detail text; computed values additionally executed), no error, nothing left unparsed; non-trivial = at least 2 edits and (two different separators, or a namespaced or quoted name); distinct by mode+source text"
 
-	run.Check("lists", 240000, 3000000, listRule, func(t *rapid.T, s *rt.Section) {
+	run.Check("lists", 100000, 1200000, listRule, func(t *rapid.T, s *rt.Section) {
 		max := 8
 		c := genCase(t, s, max)
 		if why := c.outside(); why != "" {
@@ -1183,7 +1194,7 @@ func TestProp(t *testing.T) {
 		s.Report(t, checkCase(c, s))
 	})
 
-	run.Check("tails", 60000, 600000,
+	run.Check("tails", 24000, 300000,
 		"a generated list (as in section lists, 1..4 edits) followed, after '', a blank or a comma, by text that is not an edit: a junk character, a bare name, or an edit cut short (name:, name*2, &name=, name+=, an unclosed quote ...); either the command is refused as a whole (error, no callback) or the callback log is exactly the written list; non-trivial = the tail is a cut-short edit (it starts like an edit); distinct by mode+source text",
 		func(t *rapid.T, s *rt.Section) {
 			c := genCase(t, s, 4)
@@ -1221,17 +1232,21 @@ func TestProp(t *testing.T) {
 			s.Report(t, checkCase(c, s))
 		})
 
-	enumRule := "every single edit and every ordered pair of edits over a fixed alphabet (6 names: CJK, two ASCII incl. a d-initial one, namespaced, two quoted; values 60, 2.5, 3d1, (1+2), -5, d1, and 3d1-1 for modifications; every joiner spelling; x0/x1 with int, float and parenthesised multiplier; computed) x separators '' ' ' ',' ' , ', same oracle as section lists; lists outside the documented domain are skipped and counted; non-trivial as in lists"
+	enumRule := "every single edit and every ordered pair of edits (thorough: also every triple over a smaller alphabet) over a fixed alphabet (names: CJK, ASCII incl. a d-initial one, namespaced, quoted with blank and digits; values 60, 2.5, 3d1, (1+2), -5, d1, and 3d1-1 for modifications; joiner spellings ':' '=' with and without blanks; x0/x1 with int, float and parenthesised multiplier; computed) x separators '' ' ' ',' (thorough: also ' , '), same oracle as section lists; lists outside the documented domain or on an open finding's feature are skipped and counted; non-trivial as in lists"
 	run.Enum("enum", enumRule, func(s *rt.Section) {
 		s.Exhaustive = true
-		assign, mods := enumAlphabet(false)
-		s.Bounds = fmt.Sprintf("all lists of length 1 and 2 over %d assignment spellings and over %d modification spellings, 4 separators", len(assign), len(mods))
+		level, seps := 0, []string{"", " ", ","}
+		if run.Env.Thorough() {
+			level, seps = 1, enumSeps
+		}
+		assign, mods := enumAlphabet(level)
+		s.Bounds = fmt.Sprintf("all lists of length 1 and 2 over %d assignment spellings and over %d modification spellings, %d separators", len(assign), len(mods), len(seps))
 		one := []string{""}
 		ok := enumerate(s, run, assign, 1, one) && enumerate(s, run, mods, 1, one) &&
-			enumerate(s, run, assign, 2, enumSeps) && enumerate(s, run, mods, 2, enumSeps)
+			enumerate(s, run, assign, 2, seps) && enumerate(s, run, mods, 2, seps)
 		if ok && run.Env.Thorough() {
-			a3, m3 := enumAlphabet(true)
-			s.Bounds += fmt.Sprintf("; all lists of length 3 over %d assignment and %d modification spellings, 4 separators", len(a3), len(m3))
+			a3, m3 := enumAlphabet(2)
+			s.Bounds += fmt.Sprintf("; all lists of length 3 over %d assignment and %d modification spellings, 4x4 separators", len(a3), len(m3))
 			_ = enumerate(s, run, a3, 3, enumSeps) && enumerate(s, run, m3, 3, enumSeps)
 		}
 	})
